@@ -455,6 +455,11 @@ func recBodies(leaves []func() *Node, reduced bool) []func() *Node {
 	return out
 }
 
+// nearNames are two distinct type names that differ only by letter case (and, for result
+// types, identifiers that differ only by the media type suffix, see build): everything that
+// keys definitions by a normalised name merges them.
+var nearNames = [2]string{"Ab", "aB"}
+
 func recFamily(ndefs int, reduced bool, opts variantOpts) *family {
 	keys := []string{"d1", "d2", "d3"}[:ndefs]
 	leaves := []func() *Node{func() *Node { return prim("int") }}
@@ -463,9 +468,9 @@ func recFamily(ndefs int, reduced bool, opts variantOpts) *family {
 		leaves = append(leaves, func() *Node { return ref(k) })
 	}
 	bodies := recBodies(leaves, reduced)
-	nameSets := [][]string{{"A", "B", "C"}, {"A", "A", "C"}}
+	nameSets := [][]string{{"A", "B", "C"}, {"A", "A", "C"}, {nearNames[0], nearNames[1], "C"}}
 	if ndefs == 3 {
-		nameSets = [][]string{{"A", "B", "C"}, {"A", "B", "A"}}
+		nameSets = [][]string{{"A", "B", "C"}, {"A", "B", "A"}, {nearNames[0], "B", nearNames[1]}}
 	}
 	kindSets := [][]bool{{false, false, false}, {true, false, false}, {true, true, true}}
 	roots := []func() *Node{
@@ -508,7 +513,7 @@ func recFamily(ndefs int, reduced bool, opts variantOpts) *family {
 				return nil
 			}
 		}
-		if ndefs == 2 && d[0] == 1 && !(reach["d1"] && reach["d2"]) {
+		if ndefs == 2 && d[0] >= 1 && !(reach["d1"] && reach["d2"]) {
 			return nil // equal names only matter when both definitions are part of the type
 		}
 		return g
